@@ -149,10 +149,11 @@ Fixpoint enum_delimited (l : list seg) : Prop :=
   | [] => True
   end.
 
-(* ---- stated preconditions on the address ---------------------------------- *)
-(* NUL-free, no ':' (ports.h:193), every digit run at most 9 digits (atoi) *)
+(* ---- stated precondition on the address ------------------------------------ *)
+(* NUL-free, no ':' (ports.h:193) *)
+Definition addr_ok (addr : str) : Prop := Forall (fun c => c <> 0 /\ c <> 58) addr.
+
+(* every digit run at most 9 digits: what the pinned code (atoi) needed in
+   addition, see MatchRegress.v *)
 Definition digit_runs_ok (addr : str) : Prop :=
   forall pre run post, addr = pre ++ run ++ post -> digits run -> (length run <= 9)%nat.
-
-Definition addr_ok (addr : str) : Prop :=
-  Forall (fun c => c <> 0 /\ c <> 58) addr /\ digit_runs_ok addr.
